@@ -27,6 +27,42 @@ if "table" in req:
                     vals.append("ERR:" + type(e2).__name__)
             res[p] = vals
     out["table"] = res
+if "orders" in req:
+    # history dependence: evaluate the presets in every order inside this one interpreter, each time
+    # for the full element range; the answers must not depend on what was asked before
+    import itertools
+    zs = req["orders"]["zs"]
+    rows = []
+    for order in itertools.permutations(req["orders"]["presets"]):
+        for p in order:
+            vals = []
+            for z in zs:
+                try:
+                    x = float(G.get_radii(p, np.array([z]))[0])
+                    vals.append(None if math.isnan(x) else x.hex())
+                except Exception as e2:
+                    vals.append("ERR:" + type(e2).__name__)
+            rows.append({"order": list(order), "preset": p, "values": vals})
+        # also through a consumer, which is how most callers reach get_radii
+        try:
+            at = Atoms(numbers=[8, 1, 1], positions=[[0, 0, 0], [0.96, 0, 0], [-0.24, 0.93, 0]], cell=[10, 10, 10], pbc=False)
+            G.get_dimensionality(at, 0.65, radii=order[0])
+        except Exception:
+            pass
+    out["orders"] = rows
+if "vectors" in req:
+    # multi-element lookups: the resolved per-atom array for whole structures
+    rows = []
+    for case in req["vectors"]:
+        row = {"id": case["id"]}
+        for p in case["presets"]:
+            try:
+                v = G.get_radii(p, np.array(case["numbers"]))
+                row[p] = [None if math.isnan(float(x)) else float(x).hex() for x in np.asarray(v).tolist()]
+            except Exception as e:
+                row[p] = "ERR:" + type(e).__name__
+        rows.append(row)
+    out["vectors"] = rows
 if "custom" in req:
     arr = np.array(req["custom"]["arr"], dtype=float)
     r = G.get_radii(arr, np.array(req["custom"]["nums"]))
